@@ -148,6 +148,15 @@ func (m *Metadata) UnmarshalBinary(data []byte) error {
 	// Read count and pre-size map to avoid rehashing.
 	count := int(binary.BigEndian.Uint16(data[pos:]))
 	pos += 2
+
+	// Every header occupies at least 4 bytes (two length prefixes) and the
+	// trailer 8, so a count that cannot fit in the remaining bytes is malformed.
+	// Reject it before pre-sizing the map: the count is untrusted input and
+	// would otherwise drive a multi-megabyte allocation from a 10-byte section.
+	if count > (len(data)-10)/4 {
+		return ErrInvalidMetadata
+	}
+
 	m.headers = make(map[string]string, count)
 
 	for range count {
